@@ -277,18 +277,18 @@ class CylcWorkflowDBChecker:
         # (Outputs and flow_nums are serialised).
         if task:
             if '*' in task:
-                # Replace Cylc ID wildcard with Sqlite query wildcard.
-                task = task.replace('*', '%')
-                stmt_wheres.append("name like ?")
+                # Cylc ID wildcard == Sqlite GLOB wildcard (case sensitive).
+                task = _glob_escape(task)
+                stmt_wheres.append("name GLOB ?")
             else:
                 stmt_wheres.append("name==?")
             stmt_args.append(task)
 
         if cycle:
             if '*' in cycle:
-                # Replace Cylc ID wildcard with Sqlite query wildcard.
-                cycle = cycle.replace('*', '%')
-                stmt_wheres.append("cycle like ?")
+                # Cylc ID wildcard == Sqlite GLOB wildcard (case sensitive).
+                cycle = _glob_escape(cycle)
+                stmt_wheres.append("cycle GLOB ?")
             else:
                 stmt_wheres.append("cycle==?")
             stmt_args.append(cycle)
@@ -372,6 +372,21 @@ class CylcWorkflowDBChecker:
                 or TASK_OUTPUT_FAILED in outputs
             )
         )
+
+
+def _glob_escape(pattern: str) -> str:
+    """Escape Sqlite GLOB metacharacters other than the "*" wildcard.
+
+    Examples:
+        >>> _glob_escape('a_b*')
+        'a_b*'
+        >>> _glob_escape('a?[*')
+        'a[?][[]*'
+    """
+    return ''.join(
+        f'[{char}]' if char in '?[' else char
+        for char in pattern
+    )
 
 
 def check_polling_config(selector, is_trigger, is_message):
